@@ -175,9 +175,9 @@ func apathD(v ssa.Value, d int) string {
 		}
 		return x.Op.String() + apathD(x.X, d+1)
 	case *ssa.IndexAddr:
-		return apathD(x.X, d+1) + "[" + apathD(x.Index, d+1) + "]"
+		return apathD(x.X, d+1) + "[" + idxPath(x.Index, d+1) + "]"
 	case *ssa.Index:
-		return apathD(x.X, d+1) + "[" + apathD(x.Index, d+1) + "]"
+		return apathD(x.X, d+1) + "[" + idxPath(x.Index, d+1) + "]"
 	case *ssa.Const:
 		if x.Value == nil {
 			return "nil"
@@ -190,13 +190,41 @@ func apathD(v ssa.Value, d int) string {
 	case *ssa.Convert:
 		return apathD(x.X, d+1)
 	case *ssa.Call:
-		return fmt.Sprintf("call(%s)#%s", calleeShort(x), x.Name())
+		return fmt.Sprintf("call(%s)", calleeShort(x))
 	case *ssa.Extract:
 		return fmt.Sprintf("%s#%d", apathD(x.Tuple, d+1), x.Index)
 	case *ssa.TypeAssert:
 		return apathD(x.X, d+1) + ".(" + types.TypeString(x.AssertedType, func(*types.Package) string { return "" }) + ")"
 	}
 	return v.Name()
+}
+
+// idxPath renders an index: parameters, constants and field paths by name, anything else (loop counters, temporaries) as "·".
+func idxPath(v ssa.Value, d int) string {
+	switch x := stripConvs(v).(type) {
+	case *ssa.Parameter, *ssa.Const, *ssa.Field, *ssa.FieldAddr:
+		return apathD(x, d)
+	case *ssa.UnOp:
+		if x.Op == token.MUL {
+			if _, ok := x.X.(*ssa.FieldAddr); ok {
+				return apathD(x, d)
+			}
+		}
+	}
+	return "·"
+}
+
+func stripConvs(v ssa.Value) ssa.Value {
+	for {
+		switch x := v.(type) {
+		case *ssa.Convert:
+			v = x.X
+		case *ssa.ChangeType:
+			v = x.X
+		default:
+			return v
+		}
+	}
 }
 
 func calleeShort(c *ssa.Call) string {
